@@ -640,7 +640,16 @@ class Evaluator(object):
             d = dotted(target)
             if d:
                 path.env[d] = value
-                self._event("assign", path, node or target, name=d, value=value)
+                obj = None
+                head = d.split(".")[0]
+                if head != self.selfname and "." in d and isinstance(path.env.get(d.rsplit(".", 1)[0]), Rat):
+                    obj = path.env.get(d.rsplit(".", 1)[0])
+                self._event("assign", path, node or target, name=d, value=value, obj=obj)
+            else:
+                # attribute of a computed object (d[k].lat = v): a store into that object
+                base = self.ev(target.value, path)
+                self._event("store", path, node or target, root="<object>", indices=[form.apply("str:" + repr("." + target.attr), [])], value=value,
+                            old=base if isinstance(base, Rat) else self._opaque(target.value, path))
         elif isinstance(target, ast.Subscript):
             # nested subscripts: root[i][j][k] = v
             idxs = []
